@@ -1,14 +1,785 @@
-//! C03 — stub, to be implemented.
-#![allow(dead_code)]
+//! C03 — client and backend always agree on request boundaries (no smuggling). HTTP/1.1 tier.
+//!
+//! Black-box differential with three readers on netsim (real sozu worker, scripted peers):
+//!   R_c  strict RFC 9112 reading of the byte stream the client sent (`c03_ref`, `Mode::Client`),
+//!   R_b  strict reading of the raw bytes each backend connection received (`Mode::Backend`),
+//!   the client-visible outcome (statuses / echoed ids of the responses).
+//! The same byte streams are delivered twice under different segmentations and schedules
+//! (metamorphic check).
+use std::collections::BTreeMap;
+
+use serde::{Deserialize, Serialize};
 use serde_json::Value;
+
+#[path = "c03_gen.rs"]
+pub mod generator;
+#[path = "c03_ref.rs"]
+pub mod reference;
+
+use self::generator as g;
+use self::reference::{read_stream, show, Mode, Reading, Req, Stop};
+use super::c01;
+use crate::actors::h1::*;
+use crate::actors::Pace;
 use crate::framework::*;
+use crate::netsim::{self, Knobs};
+use crate::prng::{Prng, TraceHash};
+use crate::scenario::*;
+use crate::world::{SchedCfg, MS, SEC};
 
 pub struct C03;
 
+#[derive(Clone, Debug, Serialize, Deserialize)]
+pub struct Plan {
+    pub http: HttpPlan,
+    /// per client, per element: generator label (plan-level information for keys / probes only)
+    pub labels: Vec<Vec<String>>,
+    /// the plan is meant to contain the known trigger "bytes pipelined behind a length-less request"
+    pub want_trigger: bool,
+    // ---- second delivery of the same byte streams
+    pub alt_seed: u64,
+    pub alt_paces: Vec<Pace>,
+    pub alt_backend_pace: Pace,
+    pub alt_sched: SchedCfg,
+    pub alt_sndbufs: Option<Vec<i32>>,
+}
+
+const ID_SPAN: u64 = 1000;
+
+fn client_stream(c: &ClientPlan) -> Vec<u8> {
+    let mut v = Vec::new();
+    for r in &c.requests { v.extend_from_slice(&r.render()); }
+    v
+}
+
+/// Plan-level trigger of the known finding: the client sends bytes right behind the header block of a
+/// request that names neither Content-Length nor Transfer-Encoding, before its response can have
+/// completed: the next pipelined request, or bytes in the same write burst of a sequential client.
+/// Computed from the plan (R_c, plus a lenient look at the elements: a reader more lenient than R_c may
+/// accept an element R_c rejects and read it as length-less). Returns the stream offset of those bytes.
+fn lengthless_trigger(c: &ClientPlan, rc: &Reading, stream: &[u8]) -> Option<usize> {
+    // sequential clients send element k+1 only after the answers to elements 1..k: boundaries of elements
+    // are safe there, bytes inside one element are not
+    let mut bounds = Vec::new();
+    let mut off = 0;
+    for r in &c.requests { off += r.render().len(); bounds.push(off); }
+    let burst_end = |pos: usize| -> usize { if c.pipeline { stream.len() } else { bounds.iter().copied().find(|b| *b >= pos).unwrap_or(stream.len()).min(stream.len()) } };
+    if let Some(r) = rc.reqs.iter().find(|r| r.lengthless() && r.end < burst_end(r.end)) { return Some(r.end); }
+    let mut off = 0;
+    for (i, r) in c.requests.iter().enumerate() {
+        let b = r.render();
+        if !names_framing_field(&b) {
+            let he = b.windows(4).position(|w| w == b"\r\n\r\n").map(|p| p + 4).unwrap_or(b.len());
+            if he < b.len() || (c.pipeline && i + 1 < c.requests.len()) { return Some(off + he); }
+        }
+        off += b.len();
+    }
+    None
+}
+
+pub fn generate(seed: u64, _tier: Tier) -> Plan {
+    let mut rng = Prng::derive(seed, "c03/plan");
+    let mode = rng.below(8); // 0: known trigger, 1: all valid, else: one mutated element (sometimes two)
+    let want_trigger = mode == 0;
+    let mut knobs = Knobs::default();
+    knobs.front_timeout = 6;
+    knobs.request_timeout = 4;
+    knobs.back_timeout = 5;
+    knobs.connect_timeout = 2;
+    knobs.buffer_size = *rng.pick(&[16393u64, 16393, 16393, 16400, 32768]);
+    let front: std::net::SocketAddr = "10.0.0.1:80".parse().unwrap();
+    let nclients = if rng.below(4) == 0 { 2 } else { 1 };
+    let mut clients = Vec::new();
+    let mut labels: Vec<Vec<String>> = Vec::new();
+    let mut total = 0usize;
+    for ci in 0..nclients {
+        let pipeline = want_trigger || rng.below(4) != 0;
+        let mut n = 1 + rng.below(4) as usize;
+        if want_trigger && ci == 0 { n = n.max(2); }
+        let mutated: Vec<usize> = if mode >= 2 && (ci == 0 || rng.below(2) == 0) {
+            // one mutated element per connection: two would only show each other's symptoms under mixed keys
+            vec![rng.below(n as u64) as usize]
+        } else { vec![] };
+        let trig_pos = if want_trigger && ci == 0 { Some(rng.below(n as u64 - 1) as usize) } else { None };
+        let mut els: Vec<g::El> = Vec::new();
+        for j in 0..n {
+            let id = ci as u64 * ID_SPAN + j as u64 + 1;
+            let el = if trig_pos == Some(j) {
+                g::seed(&mut rng, id, true)
+            } else if mutated.contains(&j) {
+                let k = rng.below(g::N_MUT + g::N_E2E);
+                if k < g::N_MUT { g::mutant(&mut rng, id, k) } else { g::e2e(id, k - g::N_MUT) }
+            } else {
+                // a length-less body-less request only where nothing can follow it
+                let lengthless = j == n - 1 && rng.below(3) == 0;
+                g::seed(&mut rng, id, lengthless)
+            };
+            els.push(el);
+        }
+        let mk = |els: &Vec<g::El>, pace: Pace| ClientPlan {
+            name: format!("cl{ci}"),
+            src: format!("192.0.2.{}:{}", 7 + ci, 40001 + ci).parse().unwrap(),
+            dst: front,
+            start_ns: 0,
+            pace,
+            pipeline,
+            requests: els.iter().enumerate().map(|(j, e)| ReqSpec { id: ci as u64 * ID_SPAN + j as u64 + 1, method: e.method.clone(), host: g::HOST.into(), path: "/".into(), headers: vec![], body: BodySpec::None, raw: Some(e.bytes.clone()) }).collect(),
+            abort: None,
+            sndbuf: None,
+            think_ns: 0,
+            linger_ns: 1500 * MS,
+            give_up_ns: 90 * SEC,
+            wait_board: None,
+        };
+        // keep the known trigger out of every plan that is not meant to have it: cut the stream
+        // behind the first length-less request that has bytes following it
+        if !want_trigger {
+            loop {
+                let c = mk(&els, Pace::greedy());
+                let s = client_stream(&c);
+                let rc = read_stream(&s, Mode::Client);
+                let Some(r_end) = lengthless_trigger(&c, &rc, &s) else { break };
+                let mut off = 0;
+                let mut keep = 0;
+                for (j, e) in els.iter().enumerate() { off += e.bytes.len(); if off >= r_end { keep = j + 1; break; } }
+                let before = els.len();
+                if keep < els.len() { els.truncate(keep); }
+                // the bytes follow inside the last kept element itself: drop that element
+                if els.len() == before || { let c2 = mk(&els, Pace::greedy()); let s2 = client_stream(&c2); lengthless_trigger(&c2, &read_stream(&s2, Mode::Client), &s2).is_some() } { els.pop(); }
+                if els.is_empty() { break; }
+            }
+            if els.is_empty() { els.push(g::seed(&mut rng, ci as u64 * ID_SPAN + 1, false)); }
+        }
+        let bytes: usize = els.iter().map(|e| e.bytes.len()).sum();
+        total += bytes;
+        let mut c = mk(&els, Pace::greedy());
+        c.pace = segmentation(&mut rng, bytes);
+        // never 0: the backend actor must have had its first step (listen) before sozu can dial it
+        c.start_ns = 1000 + rng.below(2) * rng.below(2 * MS);
+        if rng.below(4) == 0 { c.sndbuf = Some(*rng.pick(&[4608, 9216])); }
+        labels.push(els.iter().map(|e| e.label.clone()).collect());
+        clients.push(c);
+    }
+    let backend = BackendPlan {
+        name: "b0".into(),
+        addr: "10.1.0.1:8000".parse().unwrap(),
+        pace: Pace::random_budget(&mut rng, total + 400, 300_000_000),
+        responses: BTreeMap::new(),
+        default: RespSpec::ok(BodySpec::None),
+        close_on_accept: vec![],
+        listen_from_ns: 0,
+        listen_until_ns: 0,
+    };
+    let alt_paces = clients.iter().map(|c| { let n = client_stream(c).len(); segmentation(&mut rng, n) }).collect();
+    let alt_backend_pace = Pace::random_budget(&mut rng, total + 400, 300_000_000);
+    let faulty = rng.below(3) == 0;
+    let sched = netsim::default_sched(&mut rng, faulty);
+    let alt_faulty = rng.below(3) == 0;
+    let alt_sched = netsim::default_sched(&mut rng, alt_faulty);
+    let fam = match mode { 0 => "h1_lengthless_pipelined".to_string(), 1 => "h1_valid_only".into(), _ => format!("h1_mut_{}", labels.iter().flatten().find(|l: &&String| !l.starts_with("seed:")).map(|l: &String| l.split(':').next().unwrap_or("x").to_string()).unwrap_or("none".into())) };
+    let http = HttpPlan {
+        seed,
+        family: fam,
+        knobs,
+        sched,
+        front,
+        clusters: vec![ClusterPlan { id: "c0".into(), host: g::HOST.into(), backends: vec![(backend, BackendMode::Listen { delay_ns: rng.below(2) * rng.below(5 * MS) })] }],
+        clients,
+        sndbufs: if rng.below(3) == 0 { Some(vec![0, 4608, 9216, 32768]) } else { None },
+        // let the backend actor drain what sozu wrote before the worker is stopped
+        settle_ns: 300 * MS,
+        extra_frontends: vec![("localhost".into(), Some("c0".into()))],
+    };
+    Plan { http, labels, want_trigger, alt_seed: seed ^ 0x5eed_a17e_c03c_03c0, alt_paces, alt_backend_pace, alt_sched, alt_sndbufs: if rng.below(3) == 0 { Some(vec![0, 4608, 9216]) } else { None } }
+}
+
+/// Write quanta from one byte to everything, with pauses small enough to stay below sozu's timeouts.
+fn segmentation(rng: &mut Prng, bytes: usize) -> Pace {
+    use crate::actors::Quantum;
+    let mut p = Pace::random_budget(rng, bytes, 800_000_000);
+    if bytes <= 4096 {
+        match rng.below(6) {
+            0 => p.wq = Quantum::Fixed(1),
+            1 => p.wq = Quantum::Uniform(1, 4),
+            2 => p.wq = Quantum::Fixed(2 + rng.below(40) as usize),
+            _ => {}
+        }
+        if matches!(p.wq, Quantum::Fixed(1) | Quantum::Uniform(1, 4)) && p.gap_pm > 0 { p.gap_ns = p.gap_ns.min(800_000_000 / (bytes as u64 + 1)).max(1); }
+    }
+    p
+}
+
+fn alt_http(p: &Plan) -> HttpPlan {
+    let mut h = p.http.clone();
+    h.seed = p.alt_seed;
+    for (c, pace) in h.clients.iter_mut().zip(p.alt_paces.iter()) { c.pace = pace.clone(); }
+    h.clusters[0].backends[0].0.pace = p.alt_backend_pace.clone();
+    h.sched = p.alt_sched.clone();
+    h.sndbufs = p.alt_sndbufs.clone();
+    h
+}
+
+// ------------------------------------------------------------------------------------------ oracle
+
+const PROXY_SET: &[&str] = &["x-forwarded-for", "forwarded", "x-forwarded-proto", "x-forwarded-port", "x-request-id", "sozu-id", "x-real-ip", "connection"];
+
+fn decorated(r: &Req) -> bool { r.has("sozu-id") }
+fn lossy(b: &[u8]) -> String { show(b) }
+fn fnv(b: &[u8]) -> u64 { let mut h = 0xcbf29ce484222325u64; for c in b { h = (h ^ *c as u64).wrapping_mul(0x100000001b3); } h }
+
+pub struct Judged {
+    pub v: Vec<Violation>,
+    pub digest: Vec<String>,
+    pub probes: BTreeMap<String, u64>,
+    /// the known finding was observed: derived checks (and the metamorphic comparison) are skipped
+    pub f3: bool,
+    pub backend_requests: usize,
+    pub proxy_answers: usize,
+    /// the scripted backend's own (limited) reader refused something and closed: pairing and the
+    /// metamorphic comparison say nothing about sozu then
+    pub actor_refused: bool,
+    pub has_trigger: bool,
+}
+
+/// First `x-sim-id: N` anywhere in a byte string (lenient; only used to attribute a connection to a client).
+fn lenient_id(raw: &[u8]) -> Option<u64> {
+    let low = raw.to_ascii_lowercase();
+    let at = low.windows(9).position(|w| w == b"x-sim-id:")?;
+    let rest = &raw[at + 9..];
+    let digits: Vec<u8> = rest.iter().copied().skip_while(|c| *c == b' ').take_while(|c| c.is_ascii_digit()).collect();
+    std::str::from_utf8(&digits).ok()?.parse().ok()
+}
+
+/// Plan-level, lenient: does this element's header block name a Content-Length or Transfer-Encoding field at all?
+fn names_framing_field(el: &[u8]) -> bool {
+    let head = match el.windows(4).position(|w| w == b"\r\n\r\n") { Some(p) => &el[..p], None => el };
+    head.split(|c| *c == b'\n').any(|l| { let l = l.to_ascii_lowercase(); l.starts_with(b"content-length:") || l.starts_with(b"transfer-encoding:") })
+}
+
+/// Offset in the client's stream just behind the header block of the element that carries `id`.
+fn head_end_of_element(c: &ClientPlan, id: u64) -> Option<(usize, bool)> {
+    let mut off = 0;
+    for r in &c.requests {
+        let b = r.render();
+        if lenient_id(&b) == Some(id) {
+            let he = b.windows(4).position(|w| w == b"\r\n\r\n")? + 4;
+            return Some((off + he, names_framing_field(&b)));
+        }
+        off += b.len();
+    }
+    None
+}
+
+/// Label (operator part) of the plan element of client `ci` that carries `id` (ids of hidden requests and
+/// trailer fields map back to their element); falls back to the client's first mutated element.
+fn label_of(p: &Plan, http: &HttpPlan, ci: usize, id: Option<u64>) -> String {
+    if let (Some(id), Some(c)) = (id, http.clients.get(ci)) {
+        let base = id % ID_SPAN;
+        let base = if base > 700 { base - 700 } else if base > 500 { base - 500 } else { base };
+        if let Some(k) = c.requests.iter().position(|r| r.id % ID_SPAN == base) {
+            if let Some(l) = p.labels.get(ci).and_then(|l| l.get(k)) { return l.split('/').next().unwrap_or(l).to_string(); }
+        }
+    }
+    mut_label(p, ci)
+}
+
+const TRIGGER_LABEL: &str = "trigger:bytes_after_lengthless_request";
+
+fn mut_label(p: &Plan, ci: usize) -> String {
+    p.labels.get(ci).and_then(|l| l.iter().find(|x| !x.starts_with("seed:"))).map(|l| l.split('/').next().unwrap_or(l).to_string()).unwrap_or_else(|| "none".into())
+}
+
+/// Header provenance for a backend request matched to the client's request `c`.
+fn foreign_lines(b: &Req, c: &Req) -> Option<String> {
+    let mut pool: Vec<(Vec<u8>, &[u8], bool)> = c.headers.iter().map(|(n, v)| (n.to_ascii_lowercase(), v.as_slice(), false)).collect();
+    for (n, v) in &b.headers {
+        let ln = n.to_ascii_lowercase();
+        let lns = String::from_utf8_lossy(&ln).to_string();
+        if PROXY_SET.contains(&lns.as_str()) || lns == "host" || lns == "content-length" || lns == "transfer-encoding" { continue; }
+        if lns == "cookie" { if c.has("cookie") { continue; } return Some(format!("{}: {}", lossy(n), lossy(v))); }
+        match pool.iter_mut().find(|(pn, pv, used)| !*used && *pn == ln && *pv == v.as_slice()) {
+            Some(e) => e.2 = true,
+            None => return Some(format!("{}: {}", lossy(n), lossy(v))),
+        }
+    }
+    for (n, v) in &b.trailers {
+        if !c.trailers.iter().any(|(cn, cv)| cn.eq_ignore_ascii_case(n) && cv == v) { return Some(format!("trailer {}: {}", lossy(n), lossy(v))); }
+    }
+    None
+}
+
+fn compare(b: &Req, c: &Req, partial: bool) -> Option<(&'static str, String)> {
+    if b.method != c.method { return Some(("method", format!("backend {:?} client {:?}", lossy(&b.method), lossy(&c.method)))); }
+    if b.target != c.target { return Some(("target", format!("backend {:?} client {:?}", lossy(&b.target), lossy(&c.target)))); }
+    let bh = b.host.clone().unwrap_or_default();
+    let ch = c.host.clone().unwrap_or_default();
+    if !bh.eq_ignore_ascii_case(&ch) { return Some(("host", format!("backend {:?} client {:?}", lossy(&bh), lossy(&ch)))); }
+    if partial {
+        if !(c.body.starts_with(&b.body)) { return Some(("body", format!("backend partial body ({} bytes) is not a prefix of the client's body ({} bytes decoded so far)", b.body.len(), c.body.len()))); }
+    } else {
+        if b.body.len() != c.body.len() { return Some(("body_len", format!("backend {} client {}", b.body.len(), c.body.len()))); }
+        if b.body != c.body { let at = b.body.iter().zip(c.body.iter()).position(|(x, y)| x != y).unwrap_or(0); return Some(("body", format!("differs at offset {at}"))); }
+    }
+    None
+}
+
+pub fn judge(p: &Plan, http: &HttpPlan, o: &HttpOutcome) -> Judged {
+    let mut j = Judged { v: Vec::new(), digest: Vec::new(), probes: BTreeMap::new(), f3: false, backend_requests: 0, proxy_answers: 0, actor_refused: false, has_trigger: false };
+    let probe = |j: &mut Judged, k: String| { *j.probes.entry(k).or_insert(0) += 1; };
+    if let Some(pn) = &o.panicked {
+        // key = the panic message with numbers blanked
+        let mut k = String::new();
+        let mut last_digit = false;
+        for c in pn.chars().take(90) { if c.is_ascii_digit() { if !last_digit { k.push('N'); } last_digit = true; } else { k.push(if c == ' ' { '_' } else { c }); last_digit = false; } }
+        j.v.push(Violation::new("panic", format!("worker:{k}"), pn.clone()));
+    }
+    if let Some(a) = &o.aborted { j.v.push(Violation::new("hang", format!("run_aborted:{a}"), format!("simulation aborted: {a}"))); }
+    let nclients = http.clients.len();
+    let full_streams: Vec<Vec<u8>> = http.clients.iter().map(client_stream).collect();
+    // R_c reads what the client actually sent (a sequential client stops sending when an answer is missing;
+    // sozu closing the connection cuts a pipelining one)
+    let streams: Vec<Vec<u8>> = full_streams.iter().enumerate().map(|(ci, s)| s[..o.clients[ci].rec.sent_bytes.min(s.len())].to_vec()).collect();
+    let rcs: Vec<Reading> = streams.iter().map(|s| read_stream(s, Mode::Client)).collect();
+    let triggers: Vec<Option<usize>> = (0..nclients).map(|ci| lengthless_trigger(&http.clients[ci], &rcs[ci], &streams[ci])).collect();
+    // sozu itself refused something on this connection (it may be stricter than R_c): a request it was
+    // streaming at that moment legitimately stays partial at the backend
+    let refused: Vec<bool> = (0..nclients).map(|ci| o.clients[ci].responses.iter().any(|m| m.sim_id.is_none() && (400..500).contains(&m.status()))).collect();
+    let actor_refused = o.backends.iter().flatten().flatten().any(|r| r.parse_error.is_some());
+    j.actor_refused = actor_refused;
+    if actor_refused { probe(&mut j, "backend_actor_refused_what_sozu_forwarded".into()); }
+    j.has_trigger = triggers.iter().any(|t| t.is_some());
+    for (ci, rc) in rcs.iter().enumerate() {
+        probe(&mut j, format!("rc_stop:{}", match &rc.stop { Stop::End => "clean_end".to_string(), Stop::Incomplete { .. } => "incomplete".into(), Stop::Reject { why, .. } => format!("reject:{why}") }));
+        if rc.reqs.iter().chain(rc.tail.iter()).any(|r| !r.norm.is_empty()) { probe(&mut j, "rc_defined_recovery_needed".into()); }
+        if triggers[ci].is_some() { probe(&mut j, "plan_has_lengthless_trigger".into()); }
+    }
+    // ids are allotted per client in blocks of ID_SPAN (hidden requests: +500, trailer ids: +700)
+    let owner_of = |id: Option<u64>| -> Option<usize> { id.and_then(|i| http.clients.iter().position(|c| c.requests.iter().any(|r| r.id / ID_SPAN == i / ID_SPAN))) };
+
+    // ---------------- backend side: strict reading of every connection
+    let mut tainted = vec![false; nclients];
+    let mut not_strict = false;
+    // per client: backend requests carrying one of its ids, in connection order; bool = complete
+    let mut seen: Vec<Vec<(Req, bool)>> = vec![Vec::new(); nclients];
+    let mut anon: Vec<Req> = Vec::new();
+    let mut conn_digests: Vec<(u64, String)> = Vec::new();
+    let recs: Vec<&BackConnRecord> = o.backends.iter().flatten().flatten().collect();
+    // a backend that was left with an incomplete request cannot answer: sozu's back_timeout (504) is then the
+    // expected outcome of a client that stopped sending, not an answer to malformed input
+    let backend_left_waiting = recs.iter().any(|r| matches!(read_stream(&r.raw_in, Mode::Backend).stop, Stop::Incomplete { .. }));
+    for rec in &recs {
+        if rec.raw_in_total as usize != rec.raw_in.len() { j.v.push(Violation::new("harness", "raw_in_truncated", "backend stream longer than the recorded 1 MiB".to_string())); }
+        let rb = read_stream(&rec.raw_in, Mode::Backend);
+        let items: Vec<(&Req, bool)> = rb.reqs.iter().map(|r| (r, true)).chain(rb.tail.iter().map(|r| (r, false))).collect();
+        let owner = items.iter().find_map(|(r, _)| owner_of(r.id)).or_else(|| owner_of(lenient_id(&rec.raw_in)));
+        j.backend_requests += rb.reqs.len();
+        let mut d = String::new();
+        // (a request that sozu streams while it is still reading it may or may not have started to reach the
+        // backend when sozu hits the malformed byte: only complete requests are schedule-independent)
+        for (r, complete) in &items { if *complete { d += &format!("[{} {} host={} id={:?} body={}:{:x}]", lossy(&r.method), lossy(&r.target), lossy(&r.host.clone().unwrap_or_default()), r.id, r.body.len(), fnv(&r.body)); } }
+        if let Stop::Reject { why, .. } = &rb.stop { d += &format!("reject:{why}"); }
+        if !d.is_empty() { conn_digests.push((items.first().and_then(|(r, _)| r.id).unwrap_or(u64::MAX), d)); }
+        // first position where the stream stops being "a sequence of requests sozu itself wrote"
+        let first_undecorated = items.iter().position(|(r, _)| !decorated(r));
+        let (bad_pos, bad_what): (Option<usize>, String) = match (first_undecorated, &rb.stop) {
+            (Some(i), _) => (Some(items[i].0.start), "undecorated_request".into()),
+            (None, Stop::Reject { why, .. }) => (Some(rb.tail.as_ref().map(|t| t.start).unwrap_or_else(|| rb.reqs.last().map_or(0, |r| r.end))), format!("reject:{why}")),
+            // a head sozu had only partly written when it gave up on the request (short write, then 4xx to the
+            // client and close): harmless if the client was cut / refused and nothing follows
+            (None, Stop::Incomplete { at }) if rb.tail.is_none() && !(rec.eof && {
+                let excused = |ci: usize| rcs[ci].stop != Stop::End || refused[ci];
+                match owner {
+                    Some(ci) => excused(ci),
+                    // too short to carry an id: attribute it by its first line
+                    None => { let part = &rec.raw_in[*at..]; let first = part.split(|c| *c == b'\r').next().unwrap_or(part); (0..nclients).any(|ci| excused(ci) && !first.is_empty() && streams[ci].windows(first.len()).any(|w| w == first)) }
+                }
+            } && !rb.reqs.last().map_or(false, |r| r.lengthless())) => (Some(*at), "partial_head".into()),
+            _ => (None, String::new()),
+        };
+        // once a client's requests and the backend's reading have parted, everything further down that
+        // client's stream is derived garbage: only the first disagreement is reported
+        if owner.map_or(false, |ci| tainted[ci]) { continue; }
+        if let Some(pos) = bad_pos {
+            // is this the known finding? the bytes at `pos` follow a forwarded length-less request and are
+            // the client's own next bytes, verbatim
+            let prev = rb.reqs.iter().filter(|r| r.end <= pos).last();
+            // were the bytes at `pos` written by sozu at all? If everything behind the header block of the
+            // previous (decorated) request, up to and beyond `pos`, is the client's own byte stream verbatim,
+            // sozu forwarded bytes it never parsed as a request.
+            let mut verbatim: Option<&'static str> = None;
+            if let (Some(prev), Some(ci)) = (prev, owner) {
+                if decorated(prev) && prev.end == pos {
+                    if let Some((he, named)) = prev.id.and_then(|id| head_end_of_element(&http.clients[ci], id)) {
+                        let rest = &rec.raw_in[prev.head_end..];
+                        let cl = &streams[ci][he.min(streams[ci].len())..];
+                        let lcp = rest.iter().zip(cl.iter()).take_while(|(a, b)| a == b).count();
+                        let k = pos - prev.head_end;
+                        // a request written by sozu starts like the client's own (request line, first lines) but differs
+                        // before the blank line (sozu's own lines are added in front of it). Verbatim client bytes run
+                        // through a whole header block, or to the end of what the client sent, or (behind a request
+                        // forwarded without framing fields) to the end of what the backend received.
+                        let next_blank = cl.get(k..).and_then(|x| x.windows(4).position(|w| w == b"\r\n\r\n")).map(|i| k + i + 4);
+                        // (d) what stands at `pos` is refused by the strict reader and is not a header block written by
+                        // sozu (no Sozu-Id line before its blank line) while it continues the client's bytes
+                        let tail = &rec.raw_in[pos..];
+                        let block = &tail[..tail.windows(4).position(|w| w == b"\r\n\r\n").unwrap_or(tail.len())];
+                        let written_by_sozu = block.to_ascii_lowercase().windows(10).any(|w| w == b"\r\nsozu-id:");
+                        let refused_garbage = bad_what.starts_with("reject:") && !written_by_sozu;
+                        if lcp > k && (lcp == cl.len() || next_blank.map_or(false, |e| lcp >= e) || (prev.lengthless() && lcp == rest.len()) || refused_garbage) {
+                            verbatim = Some(if prev.lengthless() && !named { "known" } else { "other" });
+                        }
+                    }
+                }
+            }
+            if let Some(kind) = verbatim {
+                let ci = owner.unwrap();
+                tainted[ci] = true;
+                let key = if kind == "known" { j.f3 = true; probe(&mut j, "known_trigger_observed".into()); "trigger=bytes_after_lengthless_request".to_string() } else { not_strict = true; format!("trigger=other|mut={}", if triggers[ci].is_some() { TRIGGER_LABEL.to_string() } else { label_of(p, http, ci, prev.and_then(|r| r.id)) }) };
+                j.v.push(Violation::new("forwarded_unparsed_request", key, format!("backend conn {} (mutation {}): behind the header block of the forwarded request id={:?} ({}) the backend received the client's following bytes verbatim, undecorated — sozu never parsed them as a request: {:?}", rec.idx, mut_label(p, ci), prev.and_then(|r| r.id), if prev.map_or(false, |r| r.lengthless()) { "forwarded without Content-Length / Transfer-Encoding" } else { "framing fields forwarded as received" }, show(&rec.raw_in[pos..]))));
+                continue;
+            }
+            not_strict = true;
+            if let Some(ci) = owner { tainted[ci] = true; } else { for t in tainted.iter_mut() { *t = true; } }
+            let bad_id = items.iter().find(|(r, _)| r.start >= pos).and_then(|(r, _)| r.id).or_else(|| lenient_id(&rec.raw_in[pos.min(rec.raw_in.len())..]));
+            let label = owner.map(|ci| if triggers[ci].is_some() { TRIGGER_LABEL.to_string() } else { label_of(p, http, ci, bad_id) }).unwrap_or_else(|| "unknown".into());
+            if bad_what == "undecorated_request" {
+                j.v.push(Violation::new("forwarded_unparsed_request", format!("trigger=other|mut={label}"), format!("backend conn {} received a request without sozu's own header lines (Sozu-Id / X-Forwarded-*): sozu never parsed it as a request. At offset {pos}: {:?}", rec.idx, show(&rec.raw_in[pos..]))));
+            } else {
+                let at = match &rb.stop { Stop::Reject { at, .. } => *at, Stop::Incomplete { at } => *at, _ => pos };
+                j.v.push(Violation::new("backend_stream_not_strict", format!("{}|mut={label}", bad_what.trim_start_matches("reject:")), format!("backend conn {} (mutation {label}): strict reader stops at offset {at} ({bad_what}); request starts {:?}; at the stop: {:?}", rec.idx, show(&rec.raw_in[pos..]), show(&rec.raw_in[at.min(rec.raw_in.len())..]))));
+            }
+            continue;
+        }
+        // leftover partial request (head complete, body not): only if the client itself was cut / rejected
+        if let (Stop::Incomplete { .. }, Some(t)) = (&rb.stop, &rb.tail) {
+            // ... or sozu itself refused the request it was streaming (it may be stricter than R_c)
+            let ok = owner.map_or(false, |ci| rcs[ci].stop != Stop::End || refused[ci]);
+            if !ok {
+                not_strict = true;
+                if let Some(ci) = owner { tainted[ci] = true; }
+                j.v.push(Violation::new("backend_stream_not_strict", "leftover_partial_request", format!("backend conn {}: stream ends inside request id={:?} ({} body bytes) although the client's stream is complete and valid", rec.idx, t.id, t.body.len())));
+                continue;
+            }
+        }
+        for (r, complete) in items {
+            match owner_of(r.id) { Some(ci) => seen[ci].push((r.clone(), complete)), None => anon.push(r.clone()) }
+        }
+    }
+    conn_digests.sort();
+    for (_, d) in conn_digests { j.digest.push(format!("B {d}")); }
+
+    // ---------------- client side
+    let mut all_200_ids: Vec<u64> = Vec::new();
+    for ci in 0..nclients {
+        let oc = &o.clients[ci];
+        let rc = &rcs[ci];
+        // every symptom on a connection that carries the known trigger is keyed by the trigger
+        let label = if triggers[ci].is_some() { TRIGGER_LABEL.to_string() } else { mut_label(p, ci) };
+        let reject = match &rc.stop { Stop::End => "none".to_string(), Stop::Incomplete { .. } => "incomplete".into(), Stop::Reject { why, .. } => why.clone() };
+        // "4xx answer then close" and "close" are the same outcome here: trailing proxy answers are dropped
+        let mut seq: Vec<String> = oc.responses.iter().chain(oc.partial.iter()).map(|m| format!("{}:{:?}", m.status(), m.sim_id)).collect();
+        while seq.last().map_or(false, |l| l.ends_with(":None") && l.starts_with('4')) { seq.pop(); }
+        j.digest.push(format!("C{ci} {}", seq.join(" ")));
+        if let Some(e) = &oc.rec.parse_error {
+            // (observed: sozu's own 4xx answer started again from its first byte after a short write — a C02 matter)
+            let key = if e.contains("HTTP/1.1 4") { "proxy_answer_restarted_mid_write".to_string() } else { format!("client_parse|mut={label}") };
+            j.v.push(Violation::new("malformed_response", key, format!("client {ci} (mutation {label}): the response stream is not HTTP: {e}")));
+        }
+        if oc.rec.gave_up { j.v.push(Violation::new("hang", format!("no_terminal_observation|reject={reject}"), format!("client {ci} (mutation {label}): neither all answers nor a close within {} virtual seconds; got {} responses", http.clients[ci].give_up_ns / SEC, oc.responses.len()))); }
+        let ok_ids: Vec<u64> = oc.responses.iter().filter(|m| m.status() == 200 && m.sim_id.is_some() && m.complete).map(|m| m.sim_id.unwrap()).collect();
+        all_200_ids.extend(ok_ids.iter().copied());
+        // (4) sozu's own answers
+        let head_too_big = rc.reqs.iter().chain(rc.tail.iter()).any(|r| (r.head_end - r.start) as u64 + 64 >= http.knobs.buffer_size) || matches!(rc.stop, Stop::Incomplete { .. } | Stop::Reject { .. }) && streams[ci].len() as u64 + 64 >= http.knobs.buffer_size;
+        for m in oc.responses.iter().filter(|m| m.sim_id.is_none()) {
+            j.proxy_answers += 1;
+            let s = m.status();
+            probe(&mut j, format!("proxy_answer:{s}"));
+            let fine = [400u16, 404, 408, 411, 413, 414, 417, 421, 426, 431, 501, 505].contains(&s) || (s == 507 && head_too_big) || (s == 504 && (matches!(rc.stop, Stop::Incomplete { .. }) || backend_left_waiting));
+            if fine || tainted[ci] || not_strict { continue; }
+            if s >= 500 && actor_refused { probe(&mut j, "5xx_because_backend_actor_refused".into()); continue; }
+            if s >= 500 { j.v.push(Violation::new("malformed_got_5xx", format!("status={s}|reject={reject}"), format!("client {ci} (mutation {label}): sozu answered {s} {:?}", m.start))); }
+            else { j.v.push(Violation::new("unexpected_proxy_status", format!("status={s}|reject={reject}"), format!("client {ci} (mutation {label}): sozu answered {:?}", m.start))); }
+        }
+        if tainted[ci] { continue; }
+        // (2) prefix-respecting match of what the backend saw against R_c
+        let s = &seen[ci];
+        let mut bad = false;
+        for (i, (b, complete)) in s.iter().enumerate() {
+            if i < rc.reqs.len() {
+                let c = &rc.reqs[i];
+                if b.id != c.id { j.v.push(Violation::new("boundary_disagreement", format!("field=order|mut={label}"), format!("client {ci}: backend request #{i} has id {:?}, the client's request #{i} is id {:?}", b.id, c.id))); bad = true; break; }
+                if !*complete {
+                    // sozu streamed a valid request only partly: allowed only if the connection was cut later on
+                    if rc.stop == Stop::End && !refused[ci] { j.v.push(Violation::new("boundary_disagreement", format!("field=truncated|mut={label}"), format!("client {ci}: request id {:?} complete at the client, partial at the backend", c.id))); bad = true; break; }
+                    if let Some((f, why)) = compare(b, c, true) { j.v.push(Violation::new("boundary_disagreement", format!("field={f}|mut={label}"), format!("client {ci} request id {:?}: {why}", c.id))); bad = true; break; }
+                    continue;
+                }
+                if let Some((f, why)) = compare(b, c, false) { j.v.push(Violation::new("boundary_disagreement", format!("field={f}|mut={label}"), format!("client {ci} request id {:?} ({}): {why}", c.id, p.labels[ci].get(i).cloned().unwrap_or_default()))); bad = true; break; }
+                if let Some(l) = foreign_lines(b, c) { j.v.push(Violation::new("foreign_header_line", format!("mut={label}"), format!("client {ci} request id {:?}: backend header line {l:?} is neither one of the client's lines for this request nor proxy-added", c.id))); bad = true; break; }
+                if !c.norm.is_empty() { probe(&mut j, format!("forwarded_normalised:{}", c.norm.join("+"))); }
+            } else {
+                // beyond R_c's valid prefix
+                if rc.stop == Stop::End {
+                    j.v.push(Violation::new("boundary_disagreement", format!("field=extra_request|mut={label}"), format!("client {ci} sent {} requests (valid, complete stream); the backend saw one more: {} {} id={:?}", rc.reqs.len(), lossy(&b.method), lossy(&b.target), b.id)));
+                    bad = true; break;
+                }
+                // the request in progress at the stop: same head, body a prefix of what was decodable
+                if i == rc.reqs.len() {
+                    if let Some(t) = &rc.tail {
+                        if b.id == t.id {
+                            if matches!(rc.stop, Stop::Incomplete { .. }) && *complete {
+                                j.v.push(Violation::new("boundary_disagreement", format!("field=completed_cut_request|mut={label}"), format!("client {ci}: the client's last request id {:?} was cut ({} body bytes sent) but the backend received it as complete ({} bytes)", t.id, t.body.len(), b.body.len())));
+                                bad = true; break;
+                            }
+                            if !*complete {
+                                if let Some((f, why)) = compare(b, t, true) { j.v.push(Violation::new("boundary_disagreement", format!("field={f}|mut={label}"), format!("client {ci} request id {:?} (in progress at the stop): {why}", t.id))); bad = true; break; }
+                                probe(&mut j, "partial_forward_of_request_in_progress".into());
+                                continue;
+                            }
+                        }
+                    }
+                }
+                if !*complete { probe(&mut j, "partial_forward_after_reject_point".into()); continue; }
+                // forwarded although at/after the reject point: must be a normalised request that the client got a 200 for
+                probe(&mut j, format!("forwarded_after_reject_point:{reject}"));
+                let lenient: Vec<(Vec<u8>, Vec<u8>)> = streams[ci].split(|c| *c == b'\n').filter_map(|l| { let l = l.strip_suffix(b"\r").unwrap_or(l); l.iter().position(|c| *c == b':').map(|k| (l[..k].to_ascii_lowercase(), l[k + 1..].to_vec())) }).collect();
+                for (n, v) in &b.headers {
+                    let ln = n.to_ascii_lowercase();
+                    let lns = String::from_utf8_lossy(&ln).to_string();
+                    if PROXY_SET.contains(&lns.as_str()) || ["host", "content-length", "transfer-encoding", "cookie"].contains(&lns.as_str()) { continue; }
+                    let trimmed = |x: &[u8]| -> Vec<u8> { let mut x = x; while let [b' ' | b'\t', r @ ..] = x { x = r; } while let [r @ .., b' ' | b'\t'] = x { x = r; } x.to_vec() };
+                    if !lenient.iter().any(|(cn, cv)| *cn == ln && trimmed(cv) == *v) {
+                        j.v.push(Violation::new("foreign_header_line", format!("after_reject|mut={label}"), format!("client {ci}: backend request id {:?} carries {:?}: {:?} which is no line of the client's stream", b.id, lossy(n), lossy(v))));
+                        bad = true;
+                    }
+                }
+                if bad { break; }
+            }
+        }
+        if bad { continue; }
+        // requests R_c predicted that never reached the backend: sozu was stricter (allowed) — note it
+        let forwarded = s.iter().filter(|(_, c)| *c).count();
+        if forwarded < rc.reqs.len() {
+            let first_missing = &rc.reqs[forwarded];
+            let sozu_said = oc.responses.iter().find(|m| m.sim_id.is_none()).map(|m| m.status());
+            // element of the plan the first unforwarded valid request starts in
+            let mut off = 0;
+            let mut el = "?".to_string();
+            for (k, r) in http.clients[ci].requests.iter().enumerate() { let n = r.render().len(); if first_missing.start < off + n { el = p.labels.get(ci).and_then(|l| l.get(k)).cloned().unwrap_or_default(); break; } off += n; }
+            if !rc.reqs[..forwarded].iter().any(|r| r.last) { probe(&mut j, format!("valid_request_not_forwarded:{}:{}", el.split('/').next().unwrap_or(""), sozu_said.map_or("closed".to_string(), |s| s.to_string()))); }
+        }
+        // pairing: every complete backend request <-> one 200 with the same id, in order
+        let b_ids: Vec<u64> = s.iter().filter(|(_, c)| *c).map(|(r, _)| r.id.unwrap_or(u64::MAX)).collect();
+        let c_ids: Vec<u64> = ok_ids.iter().copied().filter(|i| owner_of(Some(*i)) == Some(ci)).collect();
+        if b_ids != c_ids && !actor_refused {
+            let beyond = b_ids.len() > rc.reqs.len() || matches!(rc.stop, Stop::Reject { .. });
+            let (class, key) = if beyond { ("forwarded_after_reject_point", format!("unpaired|reject={reject}")) } else { ("boundary_disagreement", format!("field=pairing|mut={label}")) };
+            j.v.push(Violation::new(class, key, format!("client {ci} (mutation {label}): backend saw complete requests with ids {b_ids:?}; the client received 200 answers with ids {c_ids:?}; all responses: {:?}", oc.responses.iter().map(|m| (m.status(), m.sim_id)).collect::<Vec<_>>())));
+        }
+    }
+    // requests without a usable id
+    if !tainted.iter().any(|t| *t) {
+        let anon_b = anon.len();
+        let anon_c = all_200_ids.iter().filter(|i| owner_of(Some(**i)).is_none()).count();
+        if anon_b != anon_c && !actor_refused { j.v.push(Violation::new("forwarded_after_reject_point", "unpaired_anonymous", format!("backend saw {anon_b} complete requests without a client id, clients received {anon_c} 200 answers without one; first: {:?}", anon.first().map(|r| (lossy(&r.method), lossy(&r.target)))))); }
+        if anon_b > 0 { probe(&mut j, "anonymous_request_forwarded".into()); }
+    }
+    j
+}
+
+pub fn summarize(p: &Plan) -> String {
+    let mut s = format!("{} buf={} ", p.http.family, p.http.knobs.buffer_size);
+    for (ci, c) in p.http.clients.iter().enumerate() {
+        s += &format!("[{} {}{:?} gap{}‰ | alt {:?}: {}] ", c.name, if c.pipeline { "pipelined " } else { "sequential " }, c.pace.wq, c.pace.gap_pm, p.alt_paces.get(ci).map(|a| a.wq.clone()), p.labels.get(ci).map(|l| l.join(" + ")).unwrap_or_default());
+    }
+    s += &format!("sched(trunc={} perm={} preempt={} short={} eagain={})", p.http.sched.ev_truncate_pm, p.http.sched.ev_permute_pm, p.http.sched.preempt_pm, p.http.sched.short_write_pm, p.http.sched.eagain_pm);
+    s
+}
+
+fn keep_labels_in_sync(p: &Plan, h: HttpPlan) -> Option<Plan> {
+    // `h` was derived from p.http by dropping clients / requests: rebuild labels and alt paces by name / id
+    let mut q = p.clone();
+    let mut labels = Vec::new();
+    let mut alt = Vec::new();
+    for c in &h.clients {
+        let ci = p.http.clients.iter().position(|x| x.name == c.name)?;
+        let mut l = Vec::new();
+        for r in &c.requests {
+            let ri = p.http.clients[ci].requests.iter().position(|x| x.id == r.id)?;
+            l.push(p.labels[ci][ri].clone());
+        }
+        labels.push(l);
+        alt.push(p.alt_paces[ci].clone());
+    }
+    q.http = h;
+    q.labels = labels;
+    q.alt_paces = alt;
+    Some(q)
+}
+
 impl Property for C03 {
     fn id(&self) -> &'static str { "C03" }
-    fn runs(&self, _tier: Tier) -> u64 { 0 }
-    fn gen_plan(&self, _seed: u64, _tier: Tier) -> Value { Value::Null }
-    fn run_plan(&self, _plan: &Value) -> RunReport { RunReport { harness_error: Some("not implemented".into()), ..Default::default() } }
-    fn descr(&self) -> Descr { Descr { level: "exploration", rule: "", assumptions: vec![], real: vec![], stub: vec![], not_covered: vec![] } }
+    fn runs(&self, tier: Tier) -> u64 { match tier { Tier::Quick => 12000, Tier::Thorough => 250000 } }
+    fn gen_plan(&self, seed: u64, tier: Tier) -> Value { serde_json::to_value(generate(seed, tier)).unwrap() }
+    fn run_plan(&self, plan: &Value) -> RunReport {
+        let p: Plan = match serde_json::from_value(plan.clone()) { Ok(p) => p, Err(e) => return RunReport { harness_error: Some(format!("bad plan: {e}")), ..Default::default() } };
+        if std::env::var("SIMK_C03_DEBUG").is_ok() { eprintln!("{}", self.debug_plan(plan)); }
+        let oa = run_http(&p.http, false);
+        let ha = alt_http(&p);
+        let ob = run_http(&ha, false);
+        let ja = judge(&p, &p.http, &oa);
+        let jb = judge(&p, &ha, &ob);
+        let mut violations = ja.v.clone();
+        for v in &jb.v { if !violations.iter().any(|x| x.class == v.class && x.key == v.key) { violations.push(v.clone()); } }
+        let mut probes = ja.probes.clone();
+        for (k, n) in &jb.probes { *probes.entry(k.clone()).or_insert(0) += n; }
+        // (5) metamorphic: same bytes, other segmentation / schedule => same backend requests, same statuses
+        let root_caused = violations.iter().any(|v| ["panic", "hang", "backend_stream_not_strict", "forwarded_unparsed_request", "harness"].contains(&v.class.as_str()));
+        if !ja.f3 && !jb.f3 && !root_caused && !ja.actor_refused && !jb.actor_refused {
+            *probes.entry("metamorphic_pairs_compared".into()).or_insert(0) += 1;
+            if ja.digest != jb.digest {
+                let what = ja.digest.iter().zip(jb.digest.iter()).find(|(a, b)| a != b).map(|(a, b)| format!("{a}  <>  {b}")).unwrap_or_else(|| format!("{} vs {} lines", ja.digest.len(), jb.digest.len()));
+                let side = if what.starts_with('B') || ja.digest.len() != jb.digest.len() { "backend_requests" } else { "client_statuses" };
+                // the connection the first differing digest line belongs to
+                let differing: Vec<&String> = ja.digest.iter().zip(jb.digest.iter()).find(|(a, b)| a != b).map(|(a, b)| vec![a, b]).unwrap_or_else(|| ja.digest.iter().chain(jb.digest.iter()).collect::<Vec<_>>().into_iter().rev().take(1).collect());
+                let line_owner = |l: &str| -> Option<usize> {
+                    if let Some(rest) = l.strip_prefix('C') { return rest.split(' ').next().and_then(|n| n.parse().ok()); }
+                    let at = l.find("id=Some(")?;
+                    let id: u64 = l[at + 8..].chars().take_while(|c| c.is_ascii_digit()).collect::<String>().parse().ok()?;
+                    p.http.clients.iter().position(|c| c.requests.iter().any(|r| r.id / ID_SPAN == id / ID_SPAN))
+                };
+                let label = differing.iter().find_map(|l| line_owner(l)).map(|ci| mut_label(&p, ci)).filter(|l| l != "none").unwrap_or_else(|| (0..p.http.clients.len()).map(|ci| mut_label(&p, ci)).find(|l| l != "none").unwrap_or_else(|| "none".into()));
+                // plan-level: a large header block that is not the first thing a pipelining client sends. Whether it
+                // still fits sozu's per-connection buffer then depends on how much of the preceding request is
+                // still in that buffer — a capacity effect, kept under its own key
+                let capacity = p.http.clients.iter().any(|c| c.pipeline && c.requests.iter().skip(1).any(|r| { let b = r.render(); b.windows(4).position(|w| w == b"\r\n\r\n").unwrap_or(b.len()) as u64 * 4 >= p.http.knobs.buffer_size }));
+                let label = if ja.has_trigger || jb.has_trigger { TRIGGER_LABEL.to_string() } else if capacity { "capacity:large_head_behind_pipelined_request".to_string() } else { label };
+                violations.push(Violation::new("segmentation_dependent", format!("{side}|mut={label}"), format!("the same client byte streams, delivered under two segmentations/schedules, gave different outcomes: {what}")));
+            }
+        }
+        // A plan that carries the known trigger shows the defect through many symptoms (verbatim bytes at the
+        // backend, a byte of the swallowed request lost, 400/408/504 for the leftovers, schedule-dependent
+        // outcome ...): all are reported under the one class/key of the trigger; the symptom stays in the detail.
+        if ja.has_trigger || jb.has_trigger {
+            let mut collapsed: Vec<Violation> = Vec::new();
+            for v in violations.drain(..) {
+                let v = if ["panic", "hang", "harness"].contains(&v.class.as_str()) || v.class == "forwarded_unparsed_request" && v.key == "trigger=bytes_after_lengthless_request" { v } else {
+                    Violation::new("forwarded_unparsed_request", "trigger=bytes_after_lengthless_request", format!("[symptom {} / {}] {}", v.class, v.key, v.detail))
+                };
+                if !collapsed.iter().any(|x| x.class == v.class && x.key == v.key) { collapsed.push(v); }
+            }
+            violations = collapsed;
+        }
+        let mut th = TraceHash::new();
+        th.mix(oa.trace_hash); th.mix(ob.trace_hash);
+        for l in ja.digest.iter().chain(jb.digest.iter()) { th.mix_bytes(l.as_bytes()); }
+        for v in &violations { th.mix_bytes(v.class.as_bytes()); th.mix_bytes(v.key.as_bytes()); }
+        let mut stats = oa.stats.clone();
+        stats.add(&ob.stats);
+        let mut rep = RunReport { seed: p.http.seed, family: p.http.family.clone(), violations, trace_hash: th.0, stats, summary: summarize(&p), ..Default::default() };
+        rep.nontrivial = ja.backend_requests + ja.proxy_answers > 0 && jb.backend_requests + jb.proxy_answers > 0;
+        for l in p.labels.iter().flatten() { *probes.entry(format!("element:{}", l.split('/').next().unwrap_or(l))).or_insert(0) += 1; }
+        probes.insert("backend_requests_strictly_read".into(), (ja.backend_requests + jb.backend_requests) as u64);
+        rep.probes = probes;
+        if let Some(e) = oa.boot_error.or(ob.boot_error) { rep.harness_error = Some(format!("worker boot failed: {e}")); }
+        if oa.config_finals.values().any(|n| *n != 1) { rep.harness_error = Some("configuration command without exactly one final answer".into()); }
+        rep
+    }
+    fn shrink(&self, plan: &Value) -> Vec<Value> {
+        let Ok(p) = serde_json::from_value::<Plan>(plan.clone()) else { return vec![] };
+        let mut out: Vec<Plan> = Vec::new();
+        // drop clients / elements, simplify schedules and pacing (labels kept in sync)
+        for h in c01::shrink_http(&p.http) {
+            if h.clients.is_empty() { continue; }
+            if let Some(q) = keep_labels_in_sync(&p, h) { out.push(q); }
+        }
+        // second delivery := first delivery with greedy pacing / default schedule
+        let mut q = p.clone();
+        q.alt_paces = q.alt_paces.iter().map(|_| Pace::greedy()).collect();
+        q.alt_backend_pace = Pace::greedy();
+        q.alt_sched = SchedCfg::default();
+        q.alt_sndbufs = None;
+        out.push(q);
+        let mut q = p.clone();
+        for c in q.http.clients.iter_mut() { c.pace = Pace::greedy(); c.sndbuf = None; c.start_ns = 1000; }
+        q.http.sched = SchedCfg::default();
+        q.http.sndbufs = None;
+        out.push(q);
+        // drop one header line / shorten the body text of one element
+        for ci in 0..p.http.clients.len() {
+            for ri in 0..p.http.clients[ci].requests.len() {
+                let Some(raw) = p.http.clients[ci].requests[ri].raw.clone() else { continue };
+                let Some(he) = raw.windows(4).position(|w| w == b"\r\n\r\n") else { continue };
+                let head = &raw[..he];
+                let mut starts = vec![0usize];
+                for (i, w) in head.windows(2).enumerate() { if w == b"\r\n" { starts.push(i + 2); } }
+                if starts.len() > 40 { continue; }
+                for li in 1..starts.len() {
+                    let s = starts[li];
+                    let e = if li + 1 < starts.len() { starts[li + 1] } else { he + 2 };
+                    let line = &raw[s..e.min(raw.len())];
+                    let low = line.to_ascii_lowercase();
+                    if low.starts_with(b"x-sim-id") { continue; }
+                    let mut nr = raw[..s].to_vec();
+                    nr.extend_from_slice(&raw[e.min(raw.len())..]);
+                    let mut q = p.clone();
+                    q.http.clients[ci].requests[ri].raw = Some(nr);
+                    out.push(q);
+                }
+            }
+        }
+        out.into_iter().map(|q| serde_json::to_value(q).unwrap()).collect()
+    }
+    fn debug_plan(&self, plan: &Value) -> String {
+        let p: Plan = serde_json::from_value(plan.clone()).unwrap();
+        let mut s = format!("{}\n", summarize(&p));
+        for (ci, c) in p.http.clients.iter().enumerate() {
+            let st = client_stream(c);
+            let rc = read_stream(&st, Mode::Client);
+            s += &format!("client {ci} stream ({} bytes): {:?}\n  R_c: {} requests, tail={:?}, stop={:?}\n", st.len(), show(&st), rc.reqs.len(), rc.tail.as_ref().map(|t| t.id), rc.stop);
+            for r in &rc.reqs { s += &format!("    {} {} host={:?} id={:?} framing={:?} body={} norm={:?} last={}\n", lossy(&r.method), lossy(&r.target), r.host.as_ref().map(|h| lossy(h)), r.id, r.framing, r.body.len(), r.norm, r.last); }
+        }
+        for (which, h) in [("A", p.http.clone()), ("B", alt_http(&p))] {
+            let o = run_http(&h, std::env::var("SIMK_LOG").is_ok());
+            s += &format!("---- delivery {which}\n");
+            for l in &o.log { s += l; s.push('\n'); }
+            for (i, c) in o.clients.iter().enumerate() {
+                s += &format!("client {i}: sent={} recv={} eof={} err={:?} gave_up={}\n", c.rec.sent_bytes, c.rec.recv_bytes, c.rec.eof, c.rec.io_err, c.rec.gave_up);
+                for m in c.responses.iter().chain(c.partial.iter()) { s += &format!("  response {:?} id={:?} complete={} body={:?}\n", m.start, m.sim_id, m.complete, String::from_utf8_lossy(&m.body_head[..m.body_head.len().min(60)])); }
+            }
+            for r in o.backends.iter().flatten().flatten() {
+                let rb = read_stream(&r.raw_in, Mode::Backend);
+                s += &format!("backend conn {}: {} bytes eof={} closed_by_us={} actor_parse_error={:?}\n  raw: {:?}\n  R_b: {} requests tail={:?} stop={:?}\n", r.idx, r.raw_in.len(), r.eof, r.closed_by_us, r.parse_error, show_long(&r.raw_in), rb.reqs.len(), rb.tail.as_ref().map(|t| t.id), rb.stop);
+            }
+            let jd = judge(&p, &h, &o);
+            for d in &jd.digest { s += &format!("  digest {d}\n"); }
+            for v in &jd.v { s += &format!("  VIOLATION {} / {} : {}\n", v.class, v.key, v.detail); }
+            s += &format!("panicked={:?} aborted={:?}\n", o.panicked, o.aborted);
+        }
+        s
+    }
+    fn descr(&self) -> Descr {
+        Descr {
+            level: "exploration",
+            rule: "seeded plans: 1-2 clients (own connections, shared backend) each send a byte stream of 1-4 elements from a grammar: valid seeds (GET/HEAD/OPTIONS/DELETE/POST/PUT/PATCH, Content-Length and chunked bodies incl. trailers, absolute-form, Expect: 100-continue, cookies, complete requests hidden inside CL / chunked bodies) with, in 6 plans of 8, one element per connection replaced by one of 104 mutation operators (20 Content-Length, 31 Transfer-Encoding variants x 5 body shapes incl. classic CL.TE / TE.CL with a hidden request, 15 chunk-syntax, 16 target/Host, 10 request-line, 9 header-block, 3 connection tricks) or one of the 13 attack strings of e2e h1_security_tests; 1 plan in 8 is all valid; 1 plan in 8 carries the known trigger (bytes sent right behind a request without Content-Length/Transfer-Encoding) and the generator cuts every other stream so that it does not. Every plan is delivered twice with the same bytes: different write quanta (1 byte .. everything), pauses, socket buffer sizes, epoll truncation/permutation, preemption points and injected short writes/EAGAIN, pipelined or sequential, over kept-alive backend connections. Non-trivial = in both deliveries at least one request reached the backend or sozu answered itself; distinct = distinct (trace hashes of both deliveries + outcome digests)",
+            assumptions: vec!["AF_UNIX stream sockets stand in for TCP", "release semantics (debug assertions off)", "the reference reader implements RFC 9112 §2-7 / RFC 9110 §5, §8.6 as written; where the RFC defines a recovery for intermediaries (TE over CL, identical repeated CL, absolute-form over Host) the recovered reading is the expected one", "the backend answers every request it frames with its own (lenient) reader; the verdict uses only the strict reader on the recorded raw bytes"],
+            real: vec!["sozu_lib::server::Server::run (whole worker: mux H1 front and back, kawa parser and converter, editor, router, answers, timers)", "mio", "Linux epoll + AF_UNIX"],
+            stub: vec!["IP network", "clock", "entropy", "clients", "backends", "master process (scripted stub)"],
+            not_covered: vec!["HTTP/2 frontends / backends (header lists, pseudo-headers, content-length vs DATA)", "TLS frontends", "sozu's access-log account R_s (the pairing of backend requests with client-visible 200 answers by id is used instead)", "body provenance of requests forwarded after the reject point (only strictness, decoration, header provenance and pairing are checked there)", "responses (backend->client direction) — see C01"],
+        }
+    }
+}
+
+fn show_long(b: &[u8]) -> String {
+    let mut s = String::new();
+    for c in b.iter().take(1500) {
+        match *c {
+            b'\r' => s.push_str("\\r"),
+            b'\n' => s.push_str("\\n"),
+            0x20..=0x7e => s.push(*c as char),
+            x => s.push_str(&format!("\\x{x:02x}")),
+        }
+    }
+    if b.len() > 1500 { s.push_str(&format!("...(+{})", b.len() - 1500)); }
+    s
 }
